@@ -60,6 +60,7 @@ type loopInfo struct {
 	kind   string // map | slice
 	rng    ssa.Value
 	next   *ssa.Next
+	idx    *ssa.Phi // counter of an explicit index loop (nil for range loops)
 }
 
 // rangeLoops finds range-over-map loops and range-over-slice loops of fn.
@@ -102,11 +103,55 @@ func rangeLoops(fn *ssa.Function) []loopInfo {
 				}
 			}
 		}
+		if li.kind == "" {
+			// explicit index loop over a whole slice: for i := 0; i < len(x); i++ { … x[i] … }
+			if iff := core.BlockIf(h); iff != nil {
+				if bo, ok := iff.Cond.(*ssa.BinOp); ok && bo.Op == token.LSS {
+					if phi, ok := bo.X.(*ssa.Phi); ok && phi.Block() == h && forwardCounterFromZero(phi) {
+						if lx, ok := lenOf(bo.Y); ok {
+							li.kind, li.rng, li.idx = "slice", lx, phi
+						}
+					}
+				}
+			}
+		}
 		if li.kind != "" {
 			out = append(out, li)
 		}
 	}
 	return out
+}
+
+// forwardCounterFromZero: phi(0, phi+1).
+func forwardCounterFromZero(phi *ssa.Phi) bool {
+	n := 0
+	for _, e := range phi.Edges {
+		if k, isK := core.ConstInt(e); isK {
+			if k != 0 {
+				return false
+			}
+			n++
+			continue
+		}
+		add, ok := e.(*ssa.BinOp)
+		if !ok || add.Op != token.ADD || add.X != ssa.Value(phi) {
+			return false
+		}
+		if k, isK := core.ConstInt(add.Y); !isK || k != 1 {
+			return false
+		}
+	}
+	return n > 0
+}
+
+// fullIndexCounter: idx is the counter of an explicit index loop that runs over the whole of slice sl.
+func fullIndexCounter(fn *ssa.Function, idx ssa.Value, sl ssa.Value) bool {
+	for _, li := range rangeLoops(fn) {
+		if li.idx != nil && ssa.Value(li.idx) == idx && li.rng == sl {
+			return true
+		}
+	}
+	return false
 }
 
 var pureMethodNames = map[string]bool{"Must": true, "Int": true, "String": true, "Link": true, "Exists": true, "Bytes": true, "Size": true, "Name": true, "ByteLen": true, "Binary": true, "IsAbsent": true, "Length": true}
@@ -233,7 +278,7 @@ func c10(c *Ctx) {
 			for _, ref := range *p.Referrers() {
 				switch x := ref.(type) {
 				case *ssa.IndexAddr:
-					if !c.rangeIndex(x.Index) {
+					if !c.rangeIndex(x.Index) && !fullIndexCounter(fn, x.Index, ssa.Value(p)) {
 						bad = append(bad, fmt.Sprintf("positional access %s[…] at %s", p.Name(), c.P.Pos(x.Pos())))
 					}
 				case *ssa.Slice:
@@ -277,7 +322,7 @@ func (c *Ctx) orderInsensitive(li loopInfo) (bool, string) {
 			}
 			seen[v] = true
 			if headerPhis[v] && v != except {
-				if phi := v.(*ssa.Phi); phi.Comment != "rangeindex" {
+				if phi := v.(*ssa.Phi); phi.Comment != "rangeindex" && !(li.idx != nil && phi == li.idx) {
 					return true
 				}
 			}
@@ -300,7 +345,7 @@ func (c *Ctx) orderInsensitive(li loopInfo) (bool, string) {
 		if !ok {
 			break
 		}
-		if phi.Comment == "rangeindex" {
+		if phi.Comment == "rangeindex" || (li.idx != nil && phi == li.idx) {
 			continue
 		}
 		switch {
